@@ -563,3 +563,13 @@ Proof.
   - vm_compute. reflexivity.
   - vm_compute. reflexivity.
 Qed.
+
+Lemma decrypt_stream_c_agrees open : forall fuel key ctr inp,
+  fst (decrypt_stream_c open fuel key ctr inp) = decrypt_stream open fuel key ctr inp.
+Proof.
+  induction fuel as [|f IH]; intros key ctr inp; [reflexivity|].
+  cbn [decrypt_stream_c decrypt_stream]. destruct inp as [|b inp']; [reflexivity|].
+  destruct (decrypt open key ctr (b :: inp')) as [pt c rest|c c']; [|reflexivity].
+  specialize (IH key c rest). destruct (decrypt_stream_c open f key c rest) as [[more st] c2].
+  cbn [fst] in *. rewrite <- IH. reflexivity.
+Qed.
